@@ -79,6 +79,13 @@ def build_harness(ctx, cmds, race=False):
     os.makedirs(ctx.bindir, exist_ok=True)
     shutil.copyfile(os.path.join(REPO, "go.sum"), os.path.join(HARNESS, "go.sum"))
     env = dict(GOENV)
+    modfile = None
+    if os.path.realpath(REPO) != "/repo":
+        # another tree (a scratch worktree with a seeded change): same harness, other replace target
+        modfile = os.path.join(ctx.work, "alt.mod")
+        txt = open(os.path.join(HARNESS, "go.mod")).read().replace("=> /repo", "=> " + os.path.realpath(REPO))
+        open(modfile, "w").write(txt)
+        shutil.copyfile(os.path.join(REPO, "go.sum"), os.path.join(ctx.work, "alt.sum"))
     if race:
         env["CGO_ENABLED"] = "1"
     for c in cmds:
@@ -86,6 +93,8 @@ def build_harness(ctx, cmds, race=False):
         args = ["go", "build", "-tags", "verif", "-o", out]
         if race:
             args.append("-race")
+        if modfile:
+            args.append("-modfile=" + modfile)
         args.append("./cmd/" + c)
         t = time.time()
         p = run(args, cwd=HARNESS, env=env, timeout=1500, check=False)
@@ -295,8 +304,9 @@ def write_evidence(ctx, samples, extra=None, assumptions=None, level="model_chec
     ev = dict(property_id=ctx.pid, tier="thorough" if ctx.tier == "thorough" else "quick", seed=ctx.seed, level=level,
               coverage=cov, assumptions=assumptions or [], wall_s=round(time.time() - ctx.t0, 1),
               violations=len(ctx.violations))
-    os.makedirs(os.path.join(VERIF, "evidence"), exist_ok=True)
-    p = os.path.join(VERIF, "evidence", ctx.pid + ".json")
+    evdir = os.environ.get("VERIF_EVIDENCE_DIR") or os.path.join(VERIF, "evidence")
+    os.makedirs(evdir, exist_ok=True)
+    p = os.path.join(evdir, ctx.pid + ".json")
     tmp = p + ".tmp"
     json.dump(ev, open(tmp, "w"), indent=1, default=str)
     os.replace(tmp, p)
